@@ -6,16 +6,16 @@ EXTENDS PyHeap
 ListForms == {"append", "appendref", "extend", "insert", "pop", "popi", "remove", "reverse", "sort", "clear", "copy", "iadd",
               "imul", "setitem", "delitem", "getitem", "setslice", "setslice2", "setslicem1", "setrev", "seteven", "delslice", "delslice2",
               "delslicem1", "slicecopy", "getslice", "listcopy", "concat", "concat2", "repeat", "rebind", "contains", "len", "eq",
-              "index", "count", "iter", "next", "drain", "forappend", "listcomp"}
+              "index", "count", "iter", "next", "drain", "forappend", "listcomp", "sortkeymut"}
 \* the forms that change or copy state (for the deeper graph)
 ListCore == {"append", "appendref", "extend", "iadd", "imul", "setitem", "delitem", "setslice", "setrev", "seteven", "delslice", "slicecopy",
-             "listcopy", "concat", "concat2", "rebind", "sort", "iter", "next", "drain", "forappend", "eq", "insert", "pop", "remove", "reverse",
+             "listcopy", "concat", "concat2", "rebind", "sort", "sortkeymut", "iter", "next", "drain", "forappend", "eq", "insert", "pop", "remove", "reverse",
              "clear", "copy"}
 \* mutation during iteration: iterator creation/advance interleaved with growth and shrinkage
 IterForms == {"iter", "next", "drain", "append", "delitem", "insert", "pop", "clear"}
 \* equal-but-distinguishable members (1, 1.0, True): stable in-place sort, membership, removal, and whole-list
 \* extended-slice assignment from the list itself / an alias / another list on lists of three and four items
-SortForms == {"setitem", "append", "sort", "reverse", "remove", "index", "count", "contains", "setrev", "seteven"}
+SortForms == {"setitem", "append", "sort", "sortkeymut", "reverse", "remove", "index", "count", "contains", "setrev", "seteven"}
 DictForms == {"dset", "ddel", "dgetitem", "get", "get2", "dcontains", "len", "update", "updatekw", "pop", "pop2", "setdefault",
               "clear", "dictcopy", "copy", "rebind", "eq", "keys", "values", "items", "diter", "dforcopy"}
 SetForms == {"add", "remove", "discard", "contains", "len", "update", "or", "and", "sub", "xor", "ior", "iand", "isub", "ixor",
